@@ -462,6 +462,115 @@ def scripts(ctx):
 POP_ON_EXIT = 1
 
 
+
+# --------------------------------------------------------------------------- callback registry
+class _Cb:
+    """a callable with a chosen hash (so that the id probing of add_callback is exercised) that records its invocations"""
+
+    def __init__(self, n, h, log):
+        self.n, self.h, self.log, self.raises = n, h, log, False
+
+    def __hash__(self):
+        return self.h
+
+    def __eq__(self, other):
+        return self is other
+
+    def __call__(self, name, args):
+        self.log.append(self.n)
+        if self.raises:
+            raise RuntimeError("handler failure")
+
+
+def registry_cases(ctx):
+    """op sequences over add / remove / deliver: ('A', cb, hash) ('R', index of an earlier add | 'bogus') ('D', raising cbs)"""
+    rng = ctx.rng
+    out = []
+    import itertools
+
+    # exhaustive: every sequence of 1..4 ops over a small alphabet (two hashes that collide, removal of the first/last add)
+    alpha = [("A", 100), ("A", 101), ("R", 0), ("R", -1), ("D",)]
+    for n in range(1, ctx.n(5, 6) + 1):
+        for w in itertools.product(alpha, repeat=n):
+            out.append(list(w) + [("D",)])
+    for _ in range(ctx.n(300, 5000)):
+        sc = []
+        for _ in range(rng.randint(3, 25)):
+            t = rng.random()
+            if t < 0.45:
+                sc.append(("A", rng.choice([100, 100, 101, 102, -3, 0, 2 ** 40])))
+            elif t < 0.75:
+                sc.append(("R", rng.choice([0, -1, rng.randrange(6), "bogus"])))
+            else:
+                sc.append(("D", rng.random() < 0.3))
+        sc.append(("D",))
+        out.append(sc)
+    return out
+
+
+def run_registry(version, sc):
+    """-> (driver ops, implementation outputs, oracle complaint or None); drives the real EZSP registry, delivering
+    through the real receive path (an unsolicited callback frame)"""
+    w = World(version, 0)
+    try:
+        e = w.e
+        e._callbacks.clear()  # the World's own two observers are not part of this scenario
+        calls = []
+        live = []  # (id, cb) registrations the *specification* says are live, in order
+        adds = []  # every add so far: (id, cb)
+        ops, outs = [], []
+        bad = None
+        ncb = 0
+        for st in sc:
+            if st[0] == "A":
+                ncb += 1
+                cb = _Cb(ncb, st[1], calls)
+                rid = e.add_callback(cb)
+                ops.append(f"A={ncb}={st[1]}")
+                outs.append(f"added:{rid}")
+                if any(rid == i for i, _ in live) and bad is None:
+                    bad = f"add_callback returned id {rid}, which is the id of a registration that is still live (callback {[c.n for i, c in live if i == rid][0]} is overwritten)"
+                live.append((rid, cb))
+                adds.append((rid, cb))
+            elif st[0] == "R":
+                if st[1] == "bogus" or not adds:
+                    rid = 123456789
+                else:
+                    rid = adds[st[1] % len(adds)][0] if st[1] >= 0 else adds[-1][0]
+                ops.append(f"R={rid}")
+                try:
+                    got = e.remove_callback(rid)
+                    outs.append(f"removed:{got.n}")
+                    exp = [c for i, c in live if i == rid]
+                    if (not exp or exp[0] is not got) and bad is None:
+                        bad = f"remove_callback({rid}) removed callback {got.n}, expected {[c.n for c in exp]}"
+                    live = [(i, c) for i, c in live if i != rid]
+                except KeyError:
+                    outs.append("keyerror")
+                    if any(i == rid for i, _ in live) and bad is None:
+                        bad = f"remove_callback({rid}) raised KeyError although that registration is live"
+            else:
+                raising = []
+                if len(st) > 1 and st[1]:
+                    raising = [c.n for _, c in live[::2]]
+                for _, c in adds:
+                    c.raises = c.n in raising
+                del calls[:]
+                try:
+                    e.frame_received(w.frame_bytes(0x42, CALLBACK, 9))
+                except Exception as ex:  # noqa: BLE001
+                    if bad is None:
+                        bad = f"frame_received raised {type(ex).__name__} while fanning out"
+                ops.append("D=" + (",".join(map(str, raising)) or "-"))
+                outs.append("called:" + (",".join(map(str, calls)) or "-"))
+                want = [c.n for _, c in live]
+                if calls != want and bad is None:
+                    bad = f"an unsolicited frame was handed to callbacks {calls}; the live registrations are {want} (each exactly once, in order)"
+        return ops, outs, bad
+    finally:
+        w.close()
+
+
 def run(ctx):
     logging.disable(logging.CRITICAL)
     import bellows.ezsp.protocol as proto
@@ -510,10 +619,25 @@ def run(ctx):
                     break
         if i % 1500 == 13:
             ctx.sample({"version": version, "seq0": seq0, "script": [list(s) for s in sc][:8], "impl": [[fmt(en, w), st] for _, en, st in w.events][:8]})
+    # callback registry: add / remove / fan-out
+    rcs = registry_cases(ctx)
+    rres = [run_registry(ctx.rng.choice([4, 8, 14]), sc) for sc in rcs]
+    rmodel = ctx.driver(["c06 reg " + " ".join(ops) for ops, _, _ in rres])
+    for k, (sc, (ops, outs, bad)) in enumerate(zip(rcs, rres)):
+        ctx.cov["evaluations"] += 1
+        ctx.count("registry")
+        if sum(1 for x in sc if x[0] == "A") >= 2 and any(x[0] == "R" for x in sc):
+            nontriv += 1
+        if bad:
+            ctx.violation(bad, {"kind": "callback-registry"}, {"registry": [list(x) for x in sc]})
+        if rmodel is not None and "|".join(outs) != rmodel[k]:
+            ctx.corr_diff("callback registry trace differs", {"registry": [list(x) for x in sc][:30]}, "|".join(outs)[:400], rmodel[k][:400])
     ctx.cov["distinct_nontrivial"] = nontriv
     ctx.cov["rule"] = (f"every sequence of 1..{ctx.n(2, 3)} commands x per-command behaviour {{reply, late reply, never, duplicate, callback before/after, send failure, wrong frame ID, invalidCommand, reply before the send "
                        "completes, cancel while waiting / while sending, foreign sequence numbers}} (exhaustive) on handlers v4/v7/v8/v14; random scripts with 2..4 queued callers of mixed priority, malformed frames, cancellations; "
-                       "300-command soaks wrapping the sequence number; non-trivial = at least two callers or one non-reply behaviour")
+                       "300-command soaks wrapping the sequence number; callback registry: every sequence of 1..5 (6 thorough) ops over {add (two colliding hashes), remove first/last, deliver} and random "
+                       "sequences with colliding / negative / huge hashes, unknown ids and raising handlers, delivered through the real receive path; non-trivial = at least two callers or one non-reply behaviour, "
+                       "or at least two registrations and a removal")
     ctx.exhaustive = True
 
 
@@ -526,6 +650,12 @@ def replay(ctx, obj):
     import bellows.ezsp.protocol as proto
 
     r = obj["replay"]
+    if "registry" in r:
+        ops, outs, bad = run_registry(4, [tuple(x) for x in r["registry"]])
+        print(f"replay registry {r['registry']}: {'FAILS: ' + bad if bad else 'ok'}")
+        if bad:
+            print(f"VIOLATION property={ctx.pid} replay=replay")
+        return 1 if bad else 0
     w, mev = run_script(random.Random(0), r["version"], r["seq0"], [tuple(s) for s in r["script"]])
     w._deadline, w._early, w._sending = {}, {}, None
     bad = oracle(w, mev, proto.EZSP_CMD_TIMEOUT)
